@@ -14,6 +14,7 @@ import (
 	"context"
 	"fmt"
 	"math/rand"
+	"os"
 	"strconv"
 	"strings"
 	"sync"
@@ -133,10 +134,25 @@ func clusterCase(run *harness.Run, key string, r *rand.Rand, idx int) {
 	// every third position write (counted per node, in arrival order) arrives late
 	var late, delayed atomic.Int64
 	dl := time.Duration(4+r.Intn(22)) * time.Millisecond
+	// one case in three is stopped in mid-traffic: the replay is cancelled at the moment the k-th
+	// late position write has been read from its connection (it is executed 80 ms later) and the tool
+	// has taken in a few more commands (logical event: the feeder's byte counter moved on), while the
+	// source keeps sending - whatever the stopping sender stores on its way out is executed around
+	// a position write of the running replay that is still on its way
+	stopAtLate := int64(0)
+	if idx%3 == 2 {
+		stopAtLate = int64(2 + r.Intn(8))
+	}
+	stopNow := make(chan struct{})
+	var stopOnce sync.Once
 	for i := 0; i < nodes; i++ {
 		cl.Node(i).ArrivalDelay = func(args [][]byte) {
 			if _, ok := isCp(args); ok && late.Add(1)%3 == 1 {
-				delayed.Add(1)
+				if n := delayed.Add(1); n == stopAtLate {
+					stopOnce.Do(func() { close(stopNow) })
+					time.Sleep(80 * time.Millisecond)
+					return
+				}
 				time.Sleep(dl)
 			}
 		}
@@ -158,6 +174,17 @@ func clusterCase(run *harness.Run, key string, r *rand.Rand, idx int) {
 			run.Inconclusive("%s: Send did not return after cancel", key)
 			return
 		}
+	case <-stopNow:
+		outcome = "stopped in mid-traffic"
+		// (the wait shapes the schedule only: the verdict is on the order of the executed writes)
+		for h0, t0 := ar.F.Handed(), time.Now(); ar.F.Handed() < h0+300 && time.Since(t0) < 40*time.Millisecond; {
+			time.Sleep(200 * time.Microsecond)
+		}
+		if _, ok := ar.Stop(60 * time.Second); !ok {
+			run.Inconclusive("%s: Send did not return after cancel (mid-traffic)", key)
+			return
+		}
+		run.Count("cluster_runs_stopped_while_a_position_write_was_on_its_way", 1)
 	case e := <-ar.Done:
 		outcome = fmt.Sprintf("send returned: %v", e)
 		ar.F.Abort()
@@ -182,6 +209,13 @@ func clusterCase(run *harness.Run, key string, r *rand.Rand, idx int) {
 			seq = append(seq, v)
 			trace = append(trace, fmt.Sprintf("req %d node%d conn%d -> %d", q.GReq, q.Node, q.Conn, v))
 		}
+	}
+	if os.Getenv("C07_DEBUG") != "" && outcome == "stopped in mid-traffic" {
+		t := trace
+		if len(t) > 6 {
+			t = t[len(t)-6:]
+		}
+		fmt.Printf("DEBUG %s pipe=%v end=%d %s\n", key, pipe, endOff, strings.Join(t, " | "))
 	}
 	run.Count("cluster_position_writes", int64(len(seq)))
 	run.Count("cluster_position_writes_that_arrived_late", delayed.Load())
@@ -210,5 +244,5 @@ func clusterCase(run *harness.Run, key string, r *rand.Rand, idx int) {
 		}
 		prev = v
 	}
-	run.Distinct(fmt.Sprintf("cluster|%s|writes=%s|late=%v", mode, map[bool]string{true: "many", false: "few"}[len(seq) > 20], delayed.Load() > 0))
+	run.Distinct(fmt.Sprintf("cluster|%s|writes=%s|late=%v|%s", mode, map[bool]string{true: "many", false: "few"}[len(seq) > 20], delayed.Load() > 0, map[bool]string{true: "stopped-mid-traffic", false: "ran-to-the-end"}[outcome == "stopped in mid-traffic"]))
 }
